@@ -74,6 +74,12 @@ func c09LockRelease(c *Ctx) {
 		}
 		fns = append(fns, fn)
 	}
+	lockReleaseRule(c, "lock-released-on-every-exit", fns, 5, "mutex acquisitions in the service packages", "every later connection that needs it parks a goroutine forever")
+}
+
+// lockReleaseRule: see c09LockRelease; shared with C02 (a lock leaked in the receive loop's reach stops frame processing).
+func lockReleaseRule(c *Ctx, rule string, fns []*ssa.Function, floor int, floorWhy, consequence string) {
+	p := c.P
 	sort.Slice(fns, func(i, j int) bool { return fns[i].String() < fns[j].String() })
 	panics := mayPanicExplicit(p, fns)
 	isMu := func(call ssa.CallInstruction, names ...string) (string, bool) {
@@ -130,12 +136,12 @@ func c09LockRelease(c *Ctx) {
 				}
 			}
 			if reacquire {
-				c.Ok("lock-released-on-every-exit", key, p.InstrPos(call), "re-acquires the caller's lock after a temporary release")
+				c.Ok(rule, key, p.InstrPos(call), "re-acquires the caller's lock after a temporary release")
 				continue
 			}
 			if deferred {
 				nDeferred++
-				c.Ok("lock-released-on-every-exit", key, p.InstrPos(call), "released by a deferred Unlock")
+				c.Ok(rule, key, p.InstrPos(call), "released by a deferred Unlock")
 				continue
 			}
 			stop := func(in ssa.Instruction) bool {
@@ -174,12 +180,13 @@ func c09LockRelease(c *Ctx) {
 				}
 			}
 			if bad == "" {
-				c.Ok("lock-released-on-every-exit", key, p.InstrPos(call), "every path from the Lock reaches the Unlock; no explicit panic inside the critical section")
+				c.Ok(rule, key, p.InstrPos(call), "every path from the Lock reaches the Unlock; no explicit panic inside the critical section")
 			} else {
-				c.Violate("lock-released-on-every-exit", key, p.InstrPos(call), bad)
+				c.Violate(rule, key, p.InstrPos(call), bad)
 			}
 		}
 	}
-	c.Extra["mutex_acquisitions_in_services"] = map[string]int{"total": n, "deferred_release": nDeferred}
-	c.Floor("lock-released-on-every-exit", 5, "mutex acquisitions in the service packages")
+	c.Extra["mutex_acquisitions:"+rule] = map[string]int{"total": n, "deferred_release": nDeferred}
+	c.Floor(rule, floor, floorWhy)
+	_ = consequence
 }
